@@ -269,17 +269,17 @@ Proof.
   all: unfold cnt; cbn [x1 y1 x2 y2].
   (* parameter of the new point, and the flags of the new point *)
   all: match goal with
-  | |- context [Qltb ((?dy / ?dx) * (?b - x1 ?s0) + y1 ?s0) ymin] =>
+  | |- context [Qltb (?dy * ((?b - x1 ?s0) / ?dx) + y1 ?s0) ymin] =>
       let u := constr:((b - x1 s0) / dx) in
       assert (U0 : 0 <= u) by (apply (proj1 (param_range (x1 s0) (x2 s0) b ltac:(assumption) ltac:(lra))));
       assert (U1 : u <= 1) by (apply (proj2 (param_range (x1 s0) (x2 s0) b ltac:(assumption) ltac:(lra))));
-      destruct (moved_point_flags s0 u b ((dy / dx) * (b - x1 s0) + y1 s0) U0 U1
+      destruct (moved_point_flags s0 u b (dy * ((b - x1 s0) / dx) + y1 s0) U0 U1
                  ltac:(unfold px; field; assumption) ltac:(unfold py; field; assumption)) as (F1 & F2 & F3 & F4)
-  | |- context [Qltb ((?dx / ?dy) * (?b - y1 ?s0) + x1 ?s0) xmin] =>
+  | |- context [Qltb (?dx * ((?b - y1 ?s0) / ?dy) + x1 ?s0) xmin] =>
       let u := constr:((b - y1 s0) / dy) in
       assert (U0 : 0 <= u) by (apply (proj1 (param_range (y1 s0) (y2 s0) b ltac:(assumption) ltac:(lra))));
       assert (U1 : u <= 1) by (apply (proj2 (param_range (y1 s0) (y2 s0) b ltac:(assumption) ltac:(lra))));
-      destruct (moved_point_flags s0 u ((dx / dy) * (b - y1 s0) + x1 s0) b U0 U1
+      destruct (moved_point_flags s0 u (dx * ((b - y1 s0) / dy) + x1 s0) b U0 U1
                  ltac:(unfold px; field; assumption) ltac:(unfold py; field; assumption)) as (F1 & F2 & F3 & F4)
   end.
   all: rewrite <- ?L1', <- ?R1', <- ?T1', <- ?B1', <- ?L2', <- ?R2', <- ?T2', <- ?B2' in *; rewrite ?Qltb_irrefl in *.
